@@ -6,6 +6,7 @@ CONSTANTS
   MaxPings = 1
   PingFirst = FALSE
   NoRaces = FALSE
+  ServerCuts = FALSE
   Slow = {"c1"}
   EmitEdges = FALSE
 SPECIFICATION Spec
